@@ -239,7 +239,7 @@ def look_probe_specs(rng):
 def look_specs(ctx):
     rng = ctx.rng
     out = look_probe_specs(rng)
-    out += [random_look_spec(rng) for _ in range(ctx.n(70, 1200))]
+    out += [random_look_spec(rng) for _ in range(ctx.n(50, 1200))]
     return out
 
 
@@ -424,6 +424,9 @@ def op_plot(env, o):
         kw["label"] = o["label"]
     if o.get("kwargs"):
         kw["plot_kwargs"] = dict(alpha=0.5)
+    if o["zero"] and kw["ax"] is not None:
+        from yaw.utils import plotting
+        plotting.zero_line(ax=kw["ax"])          # the helper behind indicate_zero, called directly as well
     subj.plot(**kw)
 
 
